@@ -32,5 +32,6 @@ def run(rep, tier, seed):
     D.run_contracts(rep, "C08", D.PART_HEUR, tier, with_lemmas=False)
     D.run_contracts(rep, "C08", [("contracts.exact", "kk_part")], tier, only_tagged=True)
     D.run_static(rep, "C08", ("purity",))      # every per-call contract presupposes that results are functions of the arguments
+    D.run_contracts(rep, "C08", D.relational(), tier, only_tagged=True)      # the same postconditions at bounded shape on the real manager classes: concrete, replayable counter-models
     t3(rep, tier, seed)
     D.link_falsifier(rep)
